@@ -11,7 +11,7 @@ package main
 //   e.commit i                   client i writes and commits: int:<n> | OK | nil | conflict
 //   e.ropen j / e.rclose j       a read-only transaction (MGET) kept open: it pins the oracle's
 //                                conflict history; closing it lets the next commit prune
-//   e.other                      a complete command on an unrelated key (any commit runs the prune)
+//   e.other / e.others n         one / n complete commands on unrelated keys (any commit runs the prune)
 //   e.stall / e.unstall          the commit pipeline is parked (the harness holds db.Lock(), which
 //                                applyRequests needs): commits get their timestamp but are not
 //                                applied; a new transaction must wait for them.  Gate, no sleeps:
@@ -288,6 +288,20 @@ func (s *embSched) exec(toks []string) string {
 		key := []byte(fmt.Sprintf("eother%d", s.seq))
 		if err := s.db.Update(func(txn *NoKV.Txn) error { return txn.SetEntry(kv.NewEntry(key, []byte("1"))) }); err != nil {
 			return "err:" + err.Error()
+		}
+		return "ok"
+	case "e.others":
+		// n complete commands on unrelated keys (a long stretch of other clients' traffic)
+		n, _ := strconv.Atoi(toks[1])
+		if s.stalled || s.ctr == nil || len(toks) != 2 {
+			return "bad-op"
+		}
+		for j := 0; j < n; j++ {
+			s.seq++
+			key := []byte(fmt.Sprintf("eother%d", s.seq))
+			if err := s.db.Update(func(txn *NoKV.Txn) error { return txn.SetEntry(kv.NewEntry(key, []byte("1"))) }); err != nil {
+				return "err:" + err.Error()
+			}
 		}
 		return "ok"
 	case "e.stall":
